@@ -26,16 +26,16 @@ struct VECTOR_BLF_EXPORT AttributeEvent final : ObjectHeader {
     /* static */
 
     /** @brief length of variable mainAttributableObjectPath in bytes */
-    uint32_t mainAttributableObjectPathLength;
+    uint32_t mainAttributableObjectPathLength {};
 
     /** @brief length of variable memberPath in bytes */
-    uint32_t memberPathLength;
+    uint32_t memberPathLength {};
 
     /** @brief length of variable attributeDefinitionPath in bytes */
-    uint32_t attributeDefinitionPathLength;
+    uint32_t attributeDefinitionPathLength {};
 
     /** @brief length of variable data in bytes */
-    uint32_t dataLength;
+    uint32_t dataLength {};
 
     /* dynamic */
 
